@@ -2,7 +2,7 @@
 //! `get_block_container` (through `lumina_node::verif::shrex`).
 //!
 //! A case = (stored-heights mask, abstract block).  The abstract 4x4 square is scaled onto real
-//! squares of width 4..64 (abstract index a -> a member of the a-th quarter); heights 1 and 3
+//! squares of width 4..128 (abstract index a -> a member of the a-th quarter); heights 1 and 3
 //! carry square A, height 2 square B; real headers from `ExtendedHeaderGenerator`, real
 //! `InMemoryStore`, real containers / CIDs / protobuf blocks.
 
@@ -20,12 +20,16 @@ use celestia_types::row_namespace_data::{
 };
 use celestia_types::sample::{Sample, SampleId, SAMPLE_ID_CODEC, SAMPLE_ID_MULTIHASH_CODE};
 use celestia_types::test_utils::ExtendedHeaderGenerator;
+use celestia_types::consts::appconsts::AppVersion;
 use celestia_types::{AxisType, ExtendedHeader};
 use cid::multihash::Multihash;
 use cid::CidGeneric;
 use h_common::{catch, read_cases, tool_error, Args, Summary};
 use lumina_node::store::{InMemoryStore, Store};
-use lumina_node::verif::shrex::{convert_cid, get_block_container, Cid, VMultihasherError, VShwapMultihasher};
+use lumina_node::verif::shrex::{
+    convert_cid, get_block_container, row_decode_and_verify, row_encode_response, sample_cid, sample_decode_and_verify,
+    sample_encode_response, Cid, VMultihasherError, VShwapMultihasher,
+};
 use prost::Message;
 use rand::rngs::StdRng;
 use rand::{Rng, SeedableRng};
@@ -138,10 +142,7 @@ fn other_codec(kind: &str) -> u64 {
     match kind {
         "sample" => ROW_ID_CODEC,
         "row" => SAMPLE_ID_CODEC,
-        _ => {
-            let _ = ROW_NAMESPACE_DATA_CODEC;
-            ROW_ID_CODEC
-        }
+        _ => ROW_ID_CODEC,
     }
 }
 
@@ -265,6 +266,89 @@ fn container_bytes(cont: &Value, sc: &Scale, world: &World) -> Vec<u8> {
         "empty" => vec![],
         "garbage" => (0..64u32).map(|i| (i.wrapping_mul(40503) >> 3) as u8 | 0x87).collect(),
         _ => tool_error(&format!("bad container mutation {mutn}")),
+    }
+}
+
+/// Extra coverage (not a property claim of this group): the same blocks through
+///  * the shrex `ResponseCodec` wrappers of the node for Sample / Row (C04 / C05 through the node
+///    codec): length-delimited container, request = the embedded identifier, DAH of its height;
+///    demanded verdict = the specification's `wire` (container well formed and verifying);
+///  * the node's CID helpers `sample_cid` / `convert_cid` (node part of C15).
+fn extras(c: &Value, blk: &Value, sc: &Scale, world: &World, built: &Built, sum: &mut Summary) {
+    let id = &blk["id"];
+    let h = id["h"].as_u64().unwrap();
+    let (p0, p1) = (us(&id["pos"][0]), us(&id["pos"][1]));
+    let dah = &world.sq_at(h as usize).dah;
+    let wire_ok = c["wire"].as_u64().unwrap_or_else(|| tool_error("case without `wire`")) == 1;
+    let mut raw = Vec::with_capacity(built.container.len() + 4);
+    prost::encoding::encode_varint(built.container.len() as u64, &mut raw);
+    raw.extend_from_slice(&built.container);
+    let verdict = |r: Result<Result<bool, String>, String>| match r {
+        Ok(Ok(true)) => "ok".to_string(),
+        Ok(Ok(false)) => "ok-but-reencoding-differs".to_string(),
+        Ok(Err(_)) => "err".to_string(),
+        Err(p) => format!("panic: {p}"),
+    };
+    match st(&id["kind"]) {
+        "sample" => {
+            let sid = SampleId::new(sc.rep(p0) as u16, sc.rep(p1) as u16, h).unwrap();
+            let got = verdict(catch(|| {
+                sample_decode_and_verify(&raw, &sid, dah, AppVersion::V6).map_err(|e| format!("{e:?}")).map(|s| {
+                    // what the node's encoder makes of the accepted sample decodes to the same sample
+                    let again = sample_encode_response(&s);
+                    sample_decode_and_verify(&again, &sid, dah, AppVersion::V6).map(|s2| sample_encode_response(&s2) == again && s2.share == s.share).unwrap_or(false)
+                })
+            }));
+            sum.case("x-C04-shrex-codec", Some(format!("{}/{}/{}", sc.w, sc.name, blk)), || json!({"case": c, "got": got}));
+            if (got == "ok") != wire_ok || got.starts_with("panic") || got.starts_with("ok-") {
+                sum.violation("x-C04-shrex-codec", json!({"why": format!("width {} scale {}: shrex Sample decode_and_verify of {} demanded {}, got {got}", sc.w, sc.name, blk, wire_ok),
+                    "class": {"op": "shrex-sample", "demand": wire_ok, "got": got}, "case": c, "width": sc.w, "scale": sc.name}));
+            }
+            // node CID helper: sample_cid = the converted CID of the identifier, and it reads back as the identifier
+            let r = catch(|| sample_cid(sc.rep(p0) as u16, sc.rep(p1) as u16, h));
+            let want = convert_cid(&CidGeneric::from(sid)).unwrap();
+            let good = matches!(&r, Ok(Ok(cid)) if *cid == want && cid.codec() == SAMPLE_ID_CODEC && cid.hash().code() == SAMPLE_ID_MULTIHASH_CODE
+                && SampleId::try_from(*cid).ok() == Some(sid));
+            sum.case("x-C15-node-cid", Some(format!("s/{}/{}/{}", sc.rep(p0), sc.rep(p1), h)), || json!({"id": id, "ok": good}));
+            if !good {
+                sum.violation("x-C15-node-cid", json!({"why": format!("sample_cid({}, {}, {h}) = {r:?}", sc.rep(p0), sc.rep(p1)), "class": {"op": "sample_cid"}}));
+            }
+            let r0 = catch(|| sample_cid(sc.rep(p0) as u16, sc.rep(p1) as u16, 0));
+            if !matches!(r0, Ok(Err(_))) {
+                sum.violation("x-C15-node-cid", json!({"why": format!("sample_cid at height 0 = {r0:?}"), "class": {"op": "sample_cid-height0"}}));
+            }
+        }
+        "row" => {
+            let rid = RowId::new(sc.rep(p0) as u16, h).unwrap();
+            let got = verdict(catch(|| {
+                row_decode_and_verify(&raw, &rid, dah, AppVersion::V6).map_err(|e| format!("{e:?}")).map(|r| {
+                    let again = row_encode_response(&r);
+                    row_decode_and_verify(&again, &rid, dah, AppVersion::V6).map(|r2| r2.shares == r.shares).unwrap_or(false)
+                })
+            }));
+            sum.case("x-C05-shrex-codec", Some(format!("{}/{}/{}", sc.w, sc.name, blk)), || json!({"case": c, "got": got}));
+            if (got == "ok") != wire_ok || got.starts_with("panic") || got.starts_with("ok-") {
+                sum.violation("x-C05-shrex-codec", json!({"why": format!("width {} scale {}: shrex Row decode_and_verify of {} demanded {}, got {got}", sc.w, sc.name, blk, wire_ok),
+                    "class": {"op": "shrex-row", "demand": wire_ok, "got": got}, "case": c, "width": sc.w, "scale": sc.name}));
+            }
+            let cid64 = convert_cid(&CidGeneric::from(rid));
+            let good = matches!(&cid64, Ok(cid) if cid.codec() == ROW_ID_CODEC && cid.hash().code() == ROW_ID_MULTIHASH_CODE && RowId::try_from(*cid).ok() == Some(rid));
+            sum.case("x-C15-node-cid", Some(format!("r/{}/{}", sc.rep(p0), h)), || json!({"id": id, "ok": good}));
+            if !good {
+                sum.violation("x-C15-node-cid", json!({"why": format!("convert_cid(row id {rid:?}) = {cid64:?}"), "class": {"op": "convert_cid-row"}}));
+            }
+        }
+        _ => {
+            let r = sc.rep(p1);
+            let nid = RowNamespaceDataId::new(ns_of_class(sc, r, p0), r as u16, h).unwrap();
+            let cid64 = convert_cid(&CidGeneric::from(nid));
+            let good = matches!(&cid64, Ok(cid) if cid.codec() == ROW_NAMESPACE_DATA_CODEC && cid.hash().code() == ROW_NAMESPACE_DATA_ID_MULTIHASH_CODE
+                && RowNamespaceDataId::try_from(*cid).ok() == Some(nid));
+            sum.case("x-C15-node-cid", Some(format!("n/{p0}/{r}/{h}")), || json!({"id": id, "ok": good}));
+            if !good {
+                sum.violation("x-C15-node-cid", json!({"why": format!("convert_cid(rnd id {nid:?}) = {cid64:?}"), "class": {"op": "convert_cid-rnd"}}));
+            }
+        }
     }
 }
 
@@ -406,8 +490,20 @@ pub fn replay(args: &Args) {
                             }),
                         );
                     }
+                    if st(&blk["blockm"]) == "none" && st(&blk["cidm"]) == "none" && !args.0.iter().any(|a| a == "--no-extras") {
+                        extras(c, blk, &sc, &world, built, &mut sum);
+                    }
                 }
             }
+        }
+    }
+    // a CID whose digest does not fit the node's 64-byte multihash is refused by convert_cid
+    {
+        let big = cid::CidGeneric::<128>::new_v1(0x55, Multihash::<128>::wrap(0x12, &[7u8; 65]).unwrap());
+        let r = catch(|| convert_cid(&big));
+        sum.case("x-C15-node-cid", Some("oversize".into()), || json!({"oversize": format!("{r:?}")}));
+        if !matches!(r, Ok(Err(_))) {
+            sum.violation("x-C15-node-cid", json!({"why": format!("convert_cid of a 65-byte digest = {r:?}"), "class": {"op": "convert_cid-oversize"}}));
         }
     }
     sum.set("by_width_scale", json!(by_width));
